@@ -58,3 +58,10 @@ VARIANTS += [
     M('C15', 'defaults-stored-on-the-base-class', E(RTF, "                cls.tmp_dir = kwargs[k]", "                ReferenceTest.tmp_dir = kwargs[k]"),
       rule='C15-DEFAULTS', key='set_defaults'),
 ]
+
+VARIANTS += [
+    M('C15', 'post-processed-pair-taken-from-the-shared-message-object', [
+        E(BC, "    def message(self):\n        return '\\n'.join(self.lines)", "    def last_reconstruction(self):\n        return self.reconstructions[-1] if self.reconstructions else None\n\n    def message(self):\n        return '\\n'.join(self.lines)"),
+        E(CF, "            self.add_failures(\n                msgs,\n                reconstruction,\n                actual_path,", "            self.add_failures(\n                msgs,\n                msgs.last_reconstruction(),\n                actual_path,")],
+      rule='C15-ARTEFACTS', key='check_files:'),
+]
